@@ -529,6 +529,13 @@ func OpenInOnly(t Target, connID string) (*Legacy, error) {
 	return l, l.OpenIn(t, connID)
 }
 
+// OpenInOnlyHeld is OpenInOnly without the preamble (SendPreamble sends it).
+func OpenInOnlyHeld(t Target, connID string) (*Legacy, error) {
+	l := &Legacy{collector: newCollector(), HoldPreamble: true}
+	l.end(io.EOF)
+	return l, l.OpenIn(t, connID)
+}
+
 // OpenIn opens the RDG_IN_DATA connection, waits for the 200, sends the preamble that the gateway
 // drains, and waits until the gateway has consumed it.
 func (l *Legacy) OpenIn(t Target, connID string) error {
